@@ -42,7 +42,8 @@ class NormalizationInfo:
                 new_truth_table.append([not value for value in tt])
             else:
                 negations.append(False)
-                new_truth_table.append(tt)
+                # same row type as the negated rows: duplicates are found by comparison
+                new_truth_table.append(list(tt))
         self.negations = negations
         return new_truth_table
 
